@@ -109,3 +109,67 @@ _core_prop("C06", "Merge admits only verified, authorised entries and is all-or-
     "Lean 4: theorems on the transcription of Join with an abstract per-candidate validity predicate (join_rejects, join_admits for every size bound, heads admitted), denied append, create-then-verify under an abstract codec/crypto; differential replay with access-controller denial and tampered source logs",
     "Kernel-checked: if any candidate of a join is invalid (unsigned, mis-signed, key-less, denied) the result is the error outcome, which carries no new state; whatever a successful join (any size bound) leaves in the log was there before or is a candidate with the log's id that passed the validity predicate, and every merged head is such an entry; a log of another id is never merged; a denied append changes neither entries nor heads; an entry signed at creation verifies under every codec whose PreSign is idempotent on its own output (default, link-encrypting, legacy). Tied to the code: histories with per-replica denying access controllers and tampered copies of logs (no signature, corrupted signature, no key, foreign key, changed payload, other log id) used as join sources; error class and the full observation after every join compared with the model; real Verify/Join of entries under the link-encrypting and legacy codecs in the codec stream.",
     CORE_NOTE + " The validity predicate is fed from the harness's knowledge of which entry objects it tampered with and which writers each controller denies; secp256k1 verification itself is trusted.")
+
+FETCH_NOTE = ("Trusted: Lean kernel; the fetcher is modelled as a nondeterministic transition system that over-approximates the heap priority and the semaphore (every real schedule is a model trace); "
+              "block decoding, the Go scheduler, sync.Cond/semaphore and wall-clock timeouts are runtime behaviour: the logic is proved, the runtime is exercised (trace validation with controlled completion order, watchdog, elapsed time against the timeout); content addressing; harness, driver.")
+FETCH_STREAM = dict(name="fetch", quick=["-n", "60"], thorough=["-n", "1500", "-thorough"], shards_quick=4, shards_thorough=14)
+FETCH_RULE = ("fetch stream: random forked/merged stored logs (2-4 writers, pointer counts 1-16) x 5-8 operations each (FetchAll from heads/random entries/unknown cids, the four loaders) with length in {-1, 0..size+3}, concurrency {1,2,4,32}, fault sets (absent/error/corrupt/slow), exclusion predicates, PRNG-controlled completion order (gated Gets) or stalls with timeouts; "
+              "distinct = distinct (log shape, operation, length, fault set) cases; non-trivial = forked log with at least one reference and a limit below the size or a non-empty fault set")
+
+PROPS["C09"] = dict(
+    title="A log rebuilt from its published heads equals the original",
+    streams=[FETCH_STREAM, core_stream()],
+    diff_fields=r"(load:.*|.*)",
+    diff_fields_by_stream={"core": r"load:.*", "fetch": r".*"},
+    spec_ids=["C09"],
+    technique="Lean 4: invariant over all accepted event lists of the fetcher transition system (fetch_unbounded_complete), closure = source entry set, loaders on any fetch result; trace validation of the real fetcher against the model",
+    level_text="Kernel-checked for every accepted event list (every concurrency level, dispatch and completion order): an unbounded fault-free fetch returns exactly the closure of the requested heads, duplicate-free; for a stored log that is closed and lies below its heads this closure is the log's entry set; all four loaders then give the same id and entry set (heads and values follow from C02/C03 and are compared on the implementation). Tied to the code by validating every observed dispatch/completion of the real fetcher as an enabled model event with equal result lists, and by the four loaders on random reachable logs in the core stream.",
+    level_note=FETCH_NOTE,
+    design_ref="§8 C09",
+    rule=FETCH_RULE,
+)
+PROPS["C10"] = dict(
+    title="A length-limited load returns exactly the most recent entries",
+    streams=[FETCH_STREAM, core_stream()],
+    diff_fields=r".*",
+    diff_fields_by_stream={"core": r"loadN:.*", "fetch": r".*"},
+    spec_ids=["C10"],
+    technique="Lean 4: admission invariant of the bounded fetcher over all accepted event lists (fetch_limited_superset) and uniqueness of sort-and-trim (load_limited_exact); trace validation and all four loaders with limits 0..size+3",
+    level_text="Kernel-checked for every accepted quiescent event list with limit n >= 0, no faults, times increasing along next: results are duplicate-free ancestors, every ancestor is admitted or dominated by n admitted entries with larger time, hence the newest n are present, and sort-and-trim of the result equals sort-and-trim of the whole closure — independent of concurrency and arrival order. Tied to the code by trace validation and by the loaders' outputs against the specification 'all supplied entries plus the most recent others' on every generated case.",
+    level_note=FETCH_NOTE + " Gap stated in DESIGN.md: NewFromEntryHash with n = 0 fetches with 0 but trims with 1 — covered by the stream, not by the theorem.",
+    design_ref="§8 C10",
+    rule=FETCH_RULE,
+)
+PROPS["C11"] = dict(
+    title="Fetching tolerates missing, failing and slow blocks and always terminates",
+    streams=[FETCH_STREAM],
+    diff_fields=r".*",
+    spec_ids=["C11"],
+    technique="Lean 4: safety and progress of the fetcher transition system over all accepted event lists and fault sets (dispatch_once, never_excluded, results_nodup, bounded, progress, can_terminate, faulty_result, cancel_stops_dispatch); trace validation with injected faults, gated completions and timeouts",
+    level_text="Kernel-checked for every fault set, exclusion predicate and accepted event list: no hash is dispatched twice, none is excluded or unrequested, results are duplicate-free, the number of events is at most 2*|mentioned hashes|+1 (no infinite execution), a non-terminated state has an enabled event, and at quiescence the result is exactly the set reachable through retrievable non-excluded entries; after cancel nothing is dispatched. Wall-clock termination within the timeout and lost-wake-up freedom of the Cond loop are exercised (watchdog, elapsed time), not proved.",
+    level_note=FETCH_NOTE,
+    design_ref="§8 C11",
+    rule=FETCH_RULE,
+)
+
+CODEC_NOTE = ("Trusted: Lean kernel; SHA-256/multihash/CID, the refmt CBOR library, encoding/json, protobuf and cid.Cast are not modelled — they are tied by byte equality of blocks and by running the real decoders on every generated input; NaCl secretbox / SHA3 nonce derivation as ideal laws (hypotheses); harness, driver.")
+CODEC_STREAM = dict(name="codec", quick=["-n", "100"], thorough=["-n", "3000", "-thorough"], shards_quick=3, shards_thorough=14)
+CODEC_RULE = ("codec stream by case index: 50% well-formed entries/manifests (V in {0,1,2,3,large}, nil/empty/0-40 links incl. CIDv0 and identity CIDs, boundary lengths, non-UTF-8 payloads, extreme clock times), 10% link-key, 30% malformed (random bytes; truncated/flipped/deleted/inserted bytes of valid blocks; hand-built CBOR maps with each field absent/null/wrong type/bad hex/bad links, extra/duplicate/shuffled keys), 10% poisoned stored logs, plus the pinned vectors (labelled TEST); distinct = distinct generated inputs; non-trivial = not the empty/zero entry")
+PROPS["C08"] = dict(
+    title="Entry encoding is canonical and decoding is its exact inverse",
+    streams=[CODEC_STREAM], diff_fields=r".*", spec_ids=["C08"],
+    technique="Lean 4: CBOR encoder/decoder pair for the entry and manifest schema with round-trip theorems by structural induction; byte-exact differential run against cbornode.WrapObject and read-back through the real store",
+    level_text="Kernel-checked: decodeEntry (cborEntry j) = j and the same for manifests (all lengths up to 2^64, RFC 7049 key order, tag-42 links), toPlain . toJsonable is the identity on every field for any payload bytes, write-then-read gives back the entry, re-encoding the decoded entry gives the same block (same CID), the block does not depend on the layout of additional data, and with a link key a same-key read restores every field. Tied to the code: the model's bytes equal the real block for every generated entry and manifest, field equality after read-back, CID equality after re-encode and across two processes; the pinned interoperability vectors are replayed as labelled tests.",
+    level_note=CODEC_NOTE, design_ref="§8 C08", rule=CODEC_RULE)
+PROPS["C12"] = dict(
+    title="Untrusted blocks and manifests cannot crash the process",
+    streams=[CODEC_STREAM], diff_fields=r".*", spec_ids=["C12"],
+    technique="Lean 4: totality (no panic outcome) of the transcribed ToPlain conversions and safety of every operation on decoded entries; malformed-input stream against the real decoders under recover",
+    level_text="Kernel-checked on the transcription of io/jsonable and cbor.DecodeRawEntry with an explicit panic outcome for nil dereferences: decoding never yields panic, a decoded entry has a clock (and an identity has signatures), and every accessor/Compare/Equals/IsParent/ToHashable/Normalize/Write/PreSign/Verify on it is panic-free; loading skips undecodable blocks. The byte-level decoders are library code: exercised with random bytes, mutated valid blocks and structurally valid CBOR with each field absent/null/mistyped, with every operation run under recover, plus stored logs with such blocks at random positions.",
+    level_note=CODEC_NOTE, design_ref="§8 C12", rule=CODEC_RULE)
+PROPS["C18"] = dict(
+    title="With a link key, stored blocks never reveal the log's structure",
+    streams=[CODEC_STREAM], diff_fields=r".*", spec_ids=["C18"],
+    technique="Lean 4: stored view has empty link lists and no tag-42 item; recovery / no-key / other-key behaviour from the ideal secretbox laws; raw-byte scan of real blocks",
+    level_text="Kernel-checked: for an entry with at least one link under a link key the stored value has next = refs = [] and its CBOR contains no tag-42 item (tag 42 appears exactly for clear-text links); a same-key reader recovers identical lists, a reader without a key gets no links, a different key is an error, and verification after read gives the same verdict as at creation. Confidentiality of secretbox is assumed; on real blocks the harness searches the binary, base32 and base58 forms of every predecessor/reference CID in the raw bytes and checks Links() is empty, reads with same/no/other key, Verify and Join after read.",
+    level_note=CODEC_NOTE + " Caveat proved (v1_links_in_clear): a V=1 entry has no encrypted-links fields and keeps its links in clear; Append always writes V=2.", design_ref="§8 C18", rule=CODEC_RULE)
